@@ -15,7 +15,8 @@ def run(ctx):
     extract.pollgate()
     tb = ts = 0
     b, s, behs = replay.replay_graph(ctx, "PollGate", "PollGate_q.cfg", gate_project, "./gatex/",
-                                     {"pollers": ["p1", "p2"], "rebalancers": ["r1", "r2"], "rounds": 2}, "gate", "gate")
+                                     {"pollers": ["p1", "p2"], "rebalancers": ["r1", "r2"], "rounds": 2}, "gate", "gate",
+                                     explore=3000 if ctx.tier == "quick" else 60000)
     tb, ts = tb + b, ts + s
     b2, s2, _ = replay.replay_graph(ctx, "PollGate", "PollGate_mis.cfg", gate_project, "./gatex/",
                                     {"pollers": ["p1", "p2"], "rebalancers": ["r1"], "rounds": 2}, "gatemis", "gate(misuse)")
